@@ -397,7 +397,7 @@ func main() {
 	r := rep.Open()
 	defer r.Close()
 	prop := *propFlag
-	n := r.N(300, 8000)
+	n := r.N(240, 5000)
 	r.Rule = "schedules of environment actions for ServeConn over a scripted conn and a gate handler, generated online from the seed (profile " + prop + "): requests of 12 kinds with unique bodies on fresh, outstanding (duplicate) and just-flushed tags, Tflush of running / finished / unknown tags, handler returns in any order with message / MessageRerror / plain-error results (also after cancellation), gated conn.Write released ok or failed, read error / peer close / context cancel at a random step, pipelining depth 1..32, frames split at a random byte; two directed shapes (write failure while the loop is handing over a completion; flush + tag reuse + late return, 48 rounds). A case is non-trivial when it has >= 4 steps; distinct by canonical case text. Executed in a child process; quiescence between steps is detected from goroutine states (no timing)."
 	totals := map[string]int{}
 	crashes, hangs := 0, 0
